@@ -30,7 +30,7 @@ CLAIMED = {
         note='Trusted: Cranelift control-flow shim (facts of a block = facts of its single incoming edge, shims/verus/clif_cf.rs), libc puts/exit, cast_ty_to_cranelift contract (proved in unit numeric), layout contracts (unit layout). Assumed path conditions of the lifted ranges: operands carry their types, source is the address of the array/slice value, a slice value holds (length, data pointer). Not covered: the recursive compile_expr calls that produce the operands, the pointer-deref loop in front of the range, the nullable-pointer branch of #unwrap, get_tagged_union_discrim, unwrap_sum_ty (assumed to read at most the payload), message texts.',
         ref='DESIGN.md 5 (C10)'),
     'C11': dict(
-        text="Run-time half: deductive proof over the real text of the tagged branch of the Expr::Switch arm of compile_expr_with_args (lifted mechanically, from the tag load to the emission of the jump table): the value switched on is the byte at the discriminant offset of the scrutinee's layout, and the jump table sends the discriminant of every arm's variant to that arm's block and every other tag to the default block (lemmas: with pairwise different variants arm i's discriminant reaches block i; a tag that is no arm's discriminant is not in the table). Checker half (inside infer_expr, out of the verifier's reach): BOUNDED stand-in on the real front end -- every sequence of at most 4 (quick) / 5 (thorough) arms over the variants of an enum and a non-variant, with and without a default arm, on an enum and on a distinct wrapper of it; accepted iff only variants, each at most once, all of them or a default arm.",
+        text="Run-time half: deductive proof over the real text of the tagged branch of the Expr::Switch arm of compile_expr_with_args (lifted mechanically, from the tag load to the emission of the jump table): the value switched on is the byte at the discriminant offset of the scrutinee's layout, and the jump table sends the discriminant of every arm's variant to that arm's block and every other tag to the default block (lemmas: with pairwise different variants arm i's discriminant reaches block i; a tag that is no arm's discriminant is not in the table). Checker half (inside infer_expr, out of the verifier's reach): BOUNDED stand-in on the real front end -- every sequence of at most 4 (quick) / 5 (thorough) arms over the variants of an enum and a non-variant, with and without a default arm, on an enum and on a distinct wrapper of it; accepted iff only variants, each at most once, all of them or a default arm. BOUNDED stand-in switch_exec (dispatch clause at run time): a 6-variant enum with custom discriminants (7, 200) and its distinct wrapper, ?u32 and str!u32: all-arms switches (qualified and shorthand) and every arm subset of size <= 2 with a default arm, run on every variant through the compiler built from the tree; the arm that ran and the payload it saw are compared with the value.",
         note='Partial. Assumed: cranelift_frontend::Switch as documented (shim), get_tagged_union_discrim through an uninterpreted name, the arms carry pairwise different variants (that is the checker half). Not covered: the code of the arm blocks, the binding of the switch argument to the payload (unwrap_sum_ty), the nullable-pointer branch, optionals / error unions in the bounded half, lower_switch (MultipleDefaultArms, RegularArmAfterDefault). A genuine defect was found by the bounded half and repaired in /repo: a switch over a distinct enum made the checker panic.',
         ref='DESIGN.md 5 (C11)'),
     'C13': dict(
